@@ -110,6 +110,17 @@ Definition dotT (a b : list t) : t := sumT O (zipWith (mul O) a b).
 Definition dg_approx (xP mu mu_eq : list t) : t := sub O (dotT xP mu) (dotT xP mu_eq).
 Definition dg_curv_binary (x xM xP dmudx : t) : t := mul O (sub O x xM) (mul O dmudx (sub O xP xM)).
 
+(* ExtraGibbsModel (kawin/thermo/Thermodynamics.py 33-41), the pycalphad Model of a precipitate phase with the
+   extra (Gibbs-Thomson) energy GE:
+     energy = GM = self.ast + v.GE                                         per mole of atoms
+     formulaenergy = G = (self.ast + v.GE) * self._site_ratio_normalization   per formula unit
+   ast is the energy per mole of atoms from the database, n = _site_ratio_normalization the moles of atoms in
+   one formula unit (0.75 + 0.25 = 1 for AL3ZR, 89 + 140 = 229 for BETA_AL3MG2, 5 + 6 = 11 for MG5SI6_B_DP).
+   GM is what `calculate` samples (sampling method), G is what the equilibrium solver minimises
+   (interfacial composition, tangent and approximate methods). *)
+Definition extra_gm (ast ge : t) : t := add O ast ge.
+Definition extra_g (ast ge n : t) : t := mul O (add O ast ge) n.
+
 End C12.
 
 Arguments zip4 {A B C D E} h a b c d.
